@@ -47,6 +47,38 @@ theorem gen_variant :
     Dtn7.Gen.C05.expiryCountsFromNow = true ∧ Dtn7.Gen.C05.dtlsrReportsFailure = true ∧
     Dtn7.Gen.C05.dispatchingHoldsRefused = true := by decide
 
+/-- The gate of epidemic routing (`Dtn7.Node.dispatchingAllowed`, `epiLocal`, `epiDirect`; `Cfg.gateDirect`):
+a bundle for this node passes; a bundle whose destination — the stored `routing/epidemic/destination` — is
+a directly connected peer passes (the Core serves it itself); only then the sent list decides, and a refused
+bundle is marked pending. `NotifyNewBundle` (`epiNotify`) writes the destination property when it is absent,
+from the bundle's primary block, before it looks at the previous node. -/
+theorem gen_epidemic_gate :
+    Dtn7.Gen.C05.epidemicGateServesDirect = true ∧
+    Dtn7.Gen.C05.epidemicGateSkeleton =
+      ["bi, biErr := er.c.store.QueryId(bp.Id)",
+       "if biErr != nil",
+       "  return true",
+       "else if dst, ok := bi.Properties[\"routing/epidemic/destination\"]; ok",
+       "  if er.c.HasEndpoint(dst.(bpv7.EndpointID))",
+       "    return true",
+       "  if len(er.c.senderForDestination(dst.(bpv7.EndpointID))) > 0",
+       "    return true",
+       "css, _ := er.clasForBundle(bp, false)",
+       "if len(css) == 0",
+       "  bi.Pending = true",
+       "  if err := er.c.store.Update(bi); err != nil",
+       "return len(css) > 0"] ∧
+    isSubseq
+      ["bi, biErr := er.c.store.QueryId(bp.Id)",
+       "bndl := bp.MustBundle()",
+       "if _, ok := bi.Properties[\"routing/epidemic/destination\"]; !ok",
+       "  bi.Properties[\"routing/epidemic/destination\"] = bndl.PrimaryBlock.Destination",
+       "  if err := er.c.store.Update(bi); err != nil",
+       "if pnBlock, err := bndl.ExtensionBlock(bpv7.ExtBlockTypePreviousNodeBlock); err == nil",
+       "bi.Properties[\"routing/epidemic/sent\"] = append(sentEids, prevNode)"]
+      Dtn7.Gen.C05.epidemicNotifySkeleton = true := by
+  decide
+
 set_option maxRecDepth 16384 in
 /-- `SendBundle` and `IdKeeper.updateUnless` (`Dtn7.Node.sendBundle`, `assignSeq`, `idkUpdate`, `idkSkip`):
 the first statement assigns the number; the "is this ID stored" question goes to the store; the loop that
@@ -227,20 +259,31 @@ theorem hold_witness :
       = some (2, "retained-not-pending") := by
   decide
 
-/-- **Direct delivery** (`direct_when_connected`, every history). After `peerUp` and after `retryTick` every
-waiting bundle whose destination node is a connected peer was handed to every CLA of that peer. The only
-way this does not happen is the gate of epidemic routing (every connected sender is already in the
-bundle's sent list, i.e. the bundle came from its own destination), which the Spec reports as a class of
-its own (`direct-not-sent-all-peers-in-sent-list`, known finding). -/
-theorem direct_when_connected (c : Cfg) (hc : Cur c) (env : Env) (now : Nat) (h : List Event) (j : Nat) :
+/-- **Direct delivery** (`direct_when_connected`, every history, FULL STRENGTH). For the code as it is — the
+gate of epidemic routing lets a bundle through whose destination is a connected peer (`gen_epidemic_gate`) —
+for every algorithm, environment and history: after `peerUp` and after `retryTick` every waiting bundle whose
+destination node is a connected peer was handed to every CLA of that peer. The proof needs the invariant that
+every stored item carries `routing/epidemic/destination` = the destination of the stored bundle
+(`Dtn7.Node.epiOk_step`), which holds because `SendBundle` files a bundle under a free ID. -/
+theorem direct_when_connected (c : Cfg) (hc : Cur c) (hg : c.gateDirect = Dtn7.Gen.C05.epidemicGateServesDirect)
+    (env : Env) (now : Nat) (h : List Event) :
+    firstFail directFail c (SpecSt.init now) 0 ((trace env (init c now) h).map obsOf) = none :=
+  (clauses_run c hc env h _ _ 0 (rinvF_init c now) (fun _ _ _ hget => by cases hget)).2.2
+    (by rw [hg]; exact gen_epidemic_gate.1)
+
+/-- The gate before the repair (`gateDirect = false`): the closed gate was the ONLY way a waiting bundle
+could miss its connected destination (`direct-not-sent` proper never happens, for any variant of the gate) … -/
+theorem direct_when_connected_partial (c : Cfg) (hc : Cur c) (env : Env) (now : Nat) (h : List Event) (j : Nat) :
     firstFail directFail c (SpecSt.init now) 0 ((trace env (init c now) h).map obsOf)
       ≠ some (j, "direct-not-sent") :=
-  (clauses_run c hc env h _ _ 0 (rinvF_init c now)).2 j
+  (clauses_run c hc env h _ _ 0 (rinvF_init c now) (fun _ _ _ hget => by cases hget)).2.1 j
 
-/-- The gate: a bundle that came from its destination is not dispatched while only that peer is connected. -/
+/-- … and it did happen: a bundle that came from its destination was not dispatched while only that peer was
+connected (the code before the repair of the gate; reproduced against the real code before the repair). -/
 theorem direct_gate_witness :
     let c : Cfg := { self := 1, algo := .epidemic, mule := false, sensorNodes := [], sprayL := 3, bcast := ⟨999, 0⟩,
-                     seqFirst := false, skipStored := false, expiryNow := true, dtlsrFail := true, holdFix := true }
+                     seqFirst := true, skipStored := true, expiryNow := true, dtlsrFail := true, holdFix := true,
+                     gateDirect := false }
     let env : Env := { sendOk := fun _ _ _ => true, prefer := fun _ _ => [], cand := fun _ _ => false }
     let b : Bundle := { tag := 2, src := ⟨7, 0⟩, ts := 900, seq := 0, dst := ⟨2, 1⟩, prev := some ⟨2, 0⟩,
                         lifetime := 3600, hop := none, age := none, delBlock := false, bsCopies := none }
@@ -249,13 +292,25 @@ theorem direct_gate_witness :
       = some (1, "direct-not-sent-all-peers-in-sent-list") := by
   decide
 
+/-- The same history with the repaired gate: the bundle is handed to its destination, and leaves the store. -/
+theorem direct_gate_repaired_example :
+    let c : Cfg := { self := 1, algo := .epidemic, mule := false, sensorNodes := [], sprayL := 3, bcast := ⟨999, 0⟩,
+                     seqFirst := true, skipStored := true, expiryNow := true, dtlsrFail := true, holdFix := true,
+                     gateDirect := true }
+    let env : Env := { sendOk := fun _ _ _ => true, prefer := fun _ _ => [], cand := fun _ _ => false }
+    let b : Bundle := { tag := 2, src := ⟨7, 0⟩, ts := 900, seq := 0, dst := ⟨2, 1⟩, prev := some ⟨2, 0⟩,
+                        lifetime := 3600, hop := none, age := none, delBlock := false, bsCopies := none }
+    (trace env (init c 1000) [.receive b none, .peerUp ⟨1, ⟨2, 0⟩⟩]).map (fun x => x.2.1)
+      = [[], [.sent ⟨1, ⟨2, 0⟩⟩ b true, .deleted b.key]] := by
+  decide
+
 /-- **Epidemic flooding** (`epidemic_floods`, every history) and the store part of **restart survival**:
 under plain epidemic routing, after `peerUp p` every waiting bundle whose sent list does not contain `p`
 (and whose destination is not connected) was handed to `p`; a restart leaves the store as it was. -/
 theorem epidemic_floods (c : Cfg) (hc : Cur c) (env : Env) (now : Nat) (h : List Event) :
     firstFail (fun c s o => (floodFail c s o).orElse fun _ => restartFail s o) c (SpecSt.init now) 0
       ((trace env (init c now) h).map obsOf) = none :=
-  (clauses_run c hc env h _ _ 0 (rinvF_init c now)).1
+  (clauses_run c hc env h _ _ 0 (rinvF_init c now) (fun _ _ _ hget => by cases hget)).1
 
 /-- **Across restarts** (`survives_restart`): the statements above are about all histories, in particular
 those with restarts anywhere; a restart keeps the store and drops what lives in memory (IdKeeper, spray
@@ -381,7 +436,8 @@ theorem pending_while_transmitting (env : Env) (d : Desc) (b : Bundle) (n : Node
 `checkPendingBundles` is a function of the state it finds. In EVERY well-formed state — in particular one
 in which another `forward` has synced its bundle and some of its per-peer goroutines have run
 (`sendAll … (forwardMid …)`) — a waiting bundle whose destination node is connected is handed to that peer
-(the epidemic gate excepted, as in `direct_when_connected`). The driver judges the same on the
+(under epidemic routing: when the gate lets it through — the item names its destination, as every stored item
+does at event boundaries, `epiOk_step`, or some connected peer is not in its sent list). The driver judges the same on the
 implementation with one run blocked inside a `Send` (`OVL` lines). -/
 theorem direct_during_another_run (env env' : Env) (d : Desc) (b : Bundle) (n : Node) (w : WF n)
     (hbk : ∀ b', d.bndl = some b' → b'.key = d.key) (ps : List Peer)
@@ -389,7 +445,8 @@ theorem direct_during_another_run (env env' : Env) (d : Desc) (b : Bundle) (n : 
     let m := (sendAll env (forwardMidDesc env d b n) b ps (forwardMid env d b n)).1
     m.store.get k = some it → isWaiting c m.now (itemView (k, it)) = true → p ∈ m.peers →
     p.eid.sameNode it.bundle.dst = true →
-    (m.cfg.algo ≠ .epidemic ∨ ∃ q ∈ m.peers, it.rt.sentE.contains q.eid = false) →
+    (m.cfg.algo ≠ .epidemic ∨ (m.cfg.gateDirect = true ∧ it.rt.epiDst = some it.bundle.dst) ∨
+      ∃ q ∈ m.peers, it.rt.sentE.contains q.eid = false) →
     sentIn (checkPending env' m).2 p.addr it.bundle.tag = true := by
   intro m hg hw hp hs hgate
   -- the state in the middle of the other run is well-formed and has the same peers and configuration
